@@ -20,6 +20,21 @@ NoCounterpart(kind) == CASE kind = "CH" -> {"extensions"}
                          [] kind = "CR" -> {"original"}
                          [] OTHER -> {}
 
+\* The dumps render a nil and an empty slice alike.  Where the encoder tells them apart the difference is a field value:
+\* clientHelloMsg.marshal writes quic_transport_parameters iff the field is non-nil ("marshal zero-length parameters when
+\* present", handshake_messages.go) - an empty value is an extension with an empty body, nil is no extension.  Every other
+\* member is written by length or by its flag, so nil and empty mean the same there.  nils.<dump>[field] = field is nil.
+NilSensitivePriv == {"quicTransportParameters"}
+NilSensitivePub == {"QuicTransportParameters"}
+PrivOf(f) == CASE f = "QuicTransportParameters" -> "quicTransportParameters"
+SameNil(a, b, fields) == \A f \in fields : a[f] = b[f]
+CHPresenceFails(ev) ==
+  LET n == ev.nils IN
+     (IF SameNil(n.privA, n.privB, NilSensitivePriv) THEN {} ELSE {"private-public-private-loses-presence"})
+  \cup (IF SameNil(n.pub, n.pub2, NilSensitivePub) THEN {} ELSE {"public-private-public-loses-presence"})
+  \cup (IF \A f \in NilSensitivePub : n.pub[f] = n.privA[PrivOf(f)] THEN {} ELSE {"view-loses-presence"})
+  \cup (IF SameNil(n.pub, n.pub3, NilSensitivePub) THEN {} ELSE {"reparse-after-clearing-raw-loses-presence"})
+
 \* ClientHello: Unmarshal+Marshal reproduces the input; both conversion directions are lossless; after clearing Raw,
 \* marshal + parse yields the same fields (and a stable encoding).
 CHFails(ev) ==
@@ -29,6 +44,7 @@ CHFails(ev) ==
   \cup (IF ev.pub.Raw = ev.raw THEN {} ELSE {"raw-not-kept"})
   \cup (IF EqExcept(ev.pub, ev.pub3, {"Raw"}) THEN {} ELSE {"reparse-after-clearing-raw-differs"})
   \cup (IF ev.pub3.Raw = ev.m2 /\ ev.m3 = ev.m2 THEN {} ELSE {"re-encoding-not-stable"})
+  \cup CHPresenceFails(ev)
 CHDetail(ev) == [privdiff |-> Differing(ev.privA, ev.privB, NoCounterpart("CH")), pubdiff |-> Differing(ev.pub, ev.pub2, {}),
                  reparsediff |-> Differing(ev.pub, ev.pub3, {"Raw"})]
 
